@@ -59,10 +59,10 @@ Print Assumptions C17_all_bytes_odd_parity.
 
 (* ---- word stream shape: the code string the writer builds (len(code) % 5 bookkeeping, "80 " padding) is
         exactly the rendering of the word stream: 2+2 lowercase hex digits and a space per word ------- *)
-Theorem C17_word_stream_shape : forall text,
+Theorem C17_word_stream_shape_unfold : forall text,
   text_to_code text = (do ws <- text_to_words text; Ok (render_words ws)).
 Proof. exact word_stream_shape. Qed.
-Print Assumptions C17_word_stream_shape.
+Print Assumptions C17_word_stream_shape_unfold.
 Theorem C17_rendered_word_parses : forall hi lo, (0 <= hi < 256)%Z -> (0 <= lo < 256)%Z ->
   exists a b c d, render_word (hi, lo) = [a; b; c; d; 32%Z] /\ parse_word [a; b; c; d] = Some (hi, lo).
 Proof. exact render_word_parses. Qed.
@@ -228,10 +228,18 @@ Theorem C17_plain_buffer_one_caption : forall nodes s e, SccRereadNodes.plain no
 Proof. exact SccRereadDoc.caption_strip. Qed.
 Print Assumptions C17_plain_buffer_one_caption.
 
-(* ONE LOAD LINE, any rows of basic characters on consecutive rows first .. first+n-1 within 1..15, from any state the
-   reader is in between lines (pop-on mode, any tracker / stash / queue): the caption on display is closed at the first
-   EDM (word n+4), and a text-and-break buffer with exactly the words of the rows is queued with the instant of the
-   first EOC (word n+6) as its start (`queued`: nothing is queued when all rows are blank) *)
+(* ONE LOAD LINE, any rows of basic characters on consecutive rows first .. first+n-1 within 1..15.
+   Which reader states it covers (audit w7 - NOT "any state"): exactly the states `SccRereadLoad.ST pa ro off st tk LNone ds
+   nodes0 q tm tc0 fr0`, i.e. no error recorded (r_err = None), pop-on mode active (r_active = MPop), last command of the
+   double-command filter = none (r_last = LNone; every line of the writer ends in a doubled code, which leaves LNone), pop-on
+   buffer with style none (cr_style = SNone; the writer never sends italics) and ANY nodes; free: stash, tracker, double-starter
+   flag, queue, time, previous timecode / frame count, offset, the paint-on and roll-up buffers (pa, ro: never touched).
+   These are the states the writer's own lines lead to from the initial state (proofs/SccRereadDoc.v items_run).
+   Conclusion: the caption on display is closed at the first EDM (word n+4: `closed`), and a text-and-break buffer with
+   exactly the words of the rows - and lines as short as the rows - is queued with the instant of the first EOC (word n+6)
+   as its start (`queued`: nothing is queued when all rows are blank).  `closed` / `queued` / `after_eoc` / `load_words` are
+   defined next to the proof (proofs/SccRereadLoad.v): closed st q t = create_and_store of the queued caption with end t;
+   queued nodes t = Some (buffer, t) unless the buffer is empty; load_words = the words ENM ENM RCL RCL rows EDM EDM EOC EOC *)
 Theorem C17_reader_on_load_line : forall pa ro off lines first st tk ds nodes0 q tm tc0 fr0 tc t1 t2,
   (1 <= first)%Z -> (first + Z.of_nat (length lines) <= 16)%Z ->
   Forall (fun line => forallb is_basic line = true) lines ->
@@ -263,7 +271,9 @@ Print Assumptions C17_short_lines_pass_length_scan.
 (* THE WHOLE DOCUMENT.  Domain caps_ok: the composed statement's (basic set, <= 15 rows, cues ordered / not overlapping /
    spaced by their transmission time, start <= end) plus: every cue has a word (a whitespace-only cue is the known
    finding C17-whitespace-only-cue-not-reread) and ends below 100 h (two-digit hours).
-   C17_reader_store_on_written_document: the decoder never raises; the caption store it ends with holds exactly one
+   C17_reader_store_on_written_document (audit w7: the statement is existential - THERE IS a store stf whose finish_read is
+   the reader model's answer; the proof takes the decoder's final store `closed st' q' 0`, the statement does not pin it;
+   the answer itself is pinned by C17_reread_store below): the decoder does not raise; a caption store holds exactly one
    caption per cue, in order, with the cue's words and a start within three frames; every stored caption has lines of at
    most 32 characters (each decoded line is one written row, stripped) and is displayed for at least two frames or not
    at all (round 4: the closing EDM comes at least two frames after the EOC, by C17_visible_within_3_frames, start <= end
@@ -362,4 +372,24 @@ Proof.
   split; [repeat constructor|split; [vm_compute; intuition discriminate|split]].
   - repeat constructor; vm_compute; discriminate.
   - repeat constructor.
+Qed.
+(* C17_reader_on_load_line on one concrete two-row load line: its hypotheses hold (basic rows 14..15, the two clock readings
+   exist) and the reader model, run by computation from the initial state, queues a buffer with the rows' words at the
+   instant of word n+6 *)
+Example C17_example_reader_on_load_line :
+  let lines := [lit "ab"; lit "cd e"] in
+  let tc := lit "00:00:10:00" in
+  let n := Z.of_nat (length (flat_map roww (number_rows 14 lines))) in
+  let s := translate_line (SccRereadLoad.ST creator0 creator0 0 stash0 tracker0 LNone false [] None 0 (lit "00:00:00;00") 0)
+                          (tc, SccRereadLoad.load_words 14 lines) in
+  Forall (fun line => forallb is_basic line = true) lines /\ n = 7%Z /\
+  (exists t1 t2, get_time tc (n + 4) 0 = Ok t1 /\ get_time tc (n + 6) 0 = Ok t2 /\
+     r_err s = None /\ r_frames s = (n + 8)%Z /\
+     match r_queue s with
+     | Some (c, t) => t = t2 /\ words (SccRereadNodes.ntext (cr_nodes c)) = [lit "ab"; lit "cd"; lit "e"]
+     | None => False
+     end).
+Proof.
+  split; [repeat constructor|]. split; [vm_compute; reflexivity|].
+  eexists _, _. split; [vm_compute; reflexivity|]. split; [vm_compute; reflexivity|]. vm_compute. repeat split.
 Qed.
